@@ -48,7 +48,10 @@ def format_MAKE_FUNCTION_10_27(argc: int) -> str:
 
 # Up until 3.7
 def format_RAISE_VARARGS_older(argc):
-    assert 0 <= argc <= 3
+    # An operand outside 0..3 is not something the compiler emits, but
+    # disassembly should still show the instruction rather than abort.
+    if not 0 <= argc <= 3:
+        return ""
     if argc == 0:
         return "reraise"
     elif argc == 1:
